@@ -356,7 +356,8 @@ class HTMLANSIContext(ANSIContext):
         for name in ('black', 'red', 'green', 'yellow', 'blue', 'magenta', 'cyan', 'white'):
             if color == Fore.BLACK:
                 return "gray"
-            elif color == getattr(Fore, name.upper()):
+            elif color == getattr(Fore, name.upper()) or color == getattr(Fore, f"LIGHT{name.upper()}_EX"):
+                # the "light" variants have no HTML name of their own
                 return name
         raise ValueError(f"Unknown ANSI color: \"{color}\"")
 
